@@ -80,6 +80,7 @@ def case(args):
     kind, keysets, kinds, prov = args[:4]
     override = len(args) > 4 and args[4] is True
     peek = len(args) > 4 and args[4] == "peek"
+    reassign = len(args) > 4 and args[4] == "reassign"
     L = len(keysets) - 1
     specs = [{"keys": ks, "kind": kd} for ks, kd in zip(keysets, kinds)]
     if override:
@@ -88,6 +89,9 @@ def case(args):
     if peek:
         for sp in specs:
             sp["peek"] = True
+    if reassign:
+        for sp in specs:
+            sp["reassign"] = True
     unstored = [j for j in range(L) if prov[j] == "unstored"]
     for j in unstored:
         specs[j]["unstored"] = True
@@ -176,9 +180,9 @@ def case(args):
                         break
         if bad:
             sig = "%s|chain:%d|prov:%s|staging:%s|%s%s" % (kind, L, "+".join(sorted(set(prov))) or "-", "+".join(sorted(set(kinds))), bad[0],
-                                                          "|shared-key-override" if override else "|keys-listed-before-parent-declared" if peek else "")
+                                                          "|shared-key-override" if override else "|keys-listed-before-parent-declared" if peek else "|first-key-assigned-twice" if reassign else "")
             out["violations"].append((sig, bad[1] + "\nbackend=%s key sets=%s staging=%s parent provenance=%s shared key override=%s" % (kind, keysets, kinds, prov, bool(override)),
-                                      {"case": [kind, keysets, kinds, prov, "peek" if peek else bool(override)]}))
+                                      {"case": [kind, keysets, kinds, prov, "peek" if peek else "reassign" if reassign else bool(override)]}))
         out["outcomes"].append("%s|%s|%s|%s" % (kind, keysets, kinds, prov))
     finally:
         rm(top)
@@ -306,6 +310,21 @@ def run(ctx):
                     provs = {"fs": ("fresh", "disk"), "fsc": ("fresh", "disk", "cache"), "mem": ("fresh", "cache")}[kind]
                     for prov in itertools.product(provs, repeat=L):
                         tasks.append((kind, [list(k) for k in keysets], list(kinds), list(prov), "peek"))
+    # on-disk staging where the first key is assigned twice (keys with equal content share one staged object)
+    for L in (0, 1):
+        for keysets in itertools.product([["e", "f"], ["g", "h"], ["a", "e"], ["a"]], repeat=L + 1):
+            for kind in ("fs", "fsc", "mem"):
+                provs = {"fs": ("fresh", "disk"), "fsc": ("fresh", "disk", "cache"), "mem": ("fresh", "cache")}[kind]
+                for prov in itertools.product(provs, repeat=L):
+                    tasks.append((kind, [list(k) for k in keysets], ["disk"] * (L + 1), list(prov), "reassign"))
+    # a partition key containing '#', every level under one shared key override (value objects are named <override>/<key>)
+    for L in (0, 1):
+        for keysets in itertools.product([["a", "k#1"], ["k#1"], ["b"]], repeat=L + 1):
+            for kinds in (("mem",) * (L + 1), ("disk",) * (L + 1)):
+                for kind in ("fs", "fsc"):
+                    for prov in itertools.product({"fs": ("fresh", "disk"), "fsc": ("fresh", "disk", "cache")}[kind], repeat=L):
+                        tasks.append((kind, [list(k) for k in keysets], list(kinds), list(prov), True))
+                        tasks.append((kind, [list(k) for k in keysets], list(kinds), list(prov)))
     # keys holding EQUAL content (one stored object behind several entries of one level, and of several levels)
     dup = [["e", "f"], ["g", "h"], ["a"], ["e"], []]
     for L in (1, 2):
